@@ -212,6 +212,9 @@ func cmdCheck(args []string) int {
 		for _, h := range o.Gen.havocked {
 			havocked[h] = true
 		}
+		for cmn := range o.Gen.constMapsUsed {
+			warnings["package-level map "+cmn+" is read as its literal (assigned only by the package initialiser from constant entries; every other use in the package is a lookup, range or len — re-checked syntactically on this run)"] = true
+		}
 		for _, w := range o.Warnings {
 			warnings[w] = true
 		}
